@@ -23,7 +23,8 @@ from vf.jv import merge_patch, pointer_tokens
 class ResDef:
     def __init__(self, group: str, version: str, plural: str, kind: str, namespaced: bool = True,
                  status_sub: bool = False, verbs: tuple[str, ...] = ('list', 'watch', 'patch', 'get', 'create', 'delete'),
-                 singular: str | None = None) -> None:
+                 singular: str | None = None, categories: tuple[str, ...] = (), shortnames: tuple[str, ...] = ()) -> None:
+        self.categories = tuple(categories); self.shortnames = tuple(shortnames)
         self.group = group; self.version = version; self.plural = plural; self.kind = kind
         self.namespaced = namespaced; self.status_sub = status_sub; self.verbs = verbs
         self.singular = singular or kind.lower()
@@ -338,6 +339,7 @@ class FakeK8s:
         self.watch_policy: Callable[[Watch, dict[str, Any]], bool] | None = None   # True = deliver now
         self.valid_gens: set[int] | None = None       # None: credentials are not checked
         self.keep_bodies: set[str] = set()            # plurals whose PATCH bodies are recorded
+        self.preferred: dict[str, str] = {}           # group -> preferred version (default: the lowest)
         self.posted_events: list[dict[str, Any]] = []
         self.projector: Callable[[ResDef, dict[str, Any]], Any] | None = None   # abstract state for the traces
         self.add_resource(ResDef('', 'v1', 'namespaces', 'Namespace', namespaced=False))
@@ -356,6 +358,12 @@ class FakeK8s:
     def create_crd_object(self, r: ResDef) -> None:
         crd = self.resources[('apiextensions.k8s.io', 'v1', 'customresourcedefinitions')]
         self.create(crd, None, f'{r.plural}.{r.group}', {'spec': {'group': r.group, 'names': {'plural': r.plural, 'kind': r.kind}}})
+
+    def touch_crd_object(self, r: ResDef) -> None:
+        """The CRD of this kind was modified (a version, a category, ... changed): its watchers get a MODIFIED event."""
+        crd = self.resources[('apiextensions.k8s.io', 'v1', 'customresourcedefinitions')]
+        if (crd.key, None, f'{r.plural}.{r.group}') in self.objs:
+            self.edit(crd, None, f'{r.plural}.{r.group}', lambda o: o['spec'].update(rev=o['spec'].get('rev', 0) + 1))
 
     def remove_resource(self, r: ResDef) -> None:
         self.resources.pop(r.key, None)
@@ -537,7 +545,8 @@ class FakeK8s:
             for (g, v, _p) in self.resources:
                 if g:
                     groups.setdefault(g, set()).add(v)
-            return Resp(200, {'groups': [{'name': g, 'preferredVersion': {'version': sorted(vs)[0], 'groupVersion': f'{g}/{sorted(vs)[0]}'},
+            pref = lambda g, vs: self.preferred.get(g) if self.preferred.get(g) in vs else sorted(vs)[0]
+            return Resp(200, {'groups': [{'name': g, 'preferredVersion': {'version': pref(g, vs), 'groupVersion': f'{g}/{pref(g, vs)}'},
                                           'versions': [{'version': v, 'groupVersion': f'{g}/{v}'} for v in sorted(vs)]}
                                          for g, vs in sorted(groups.items())]})
         if r['kind'] == 'discovery':
@@ -547,7 +556,8 @@ class FakeK8s:
             for res in self.resources.values():
                 if res.group == g and res.version == v:
                     items.append({'name': res.plural, 'kind': res.kind, 'singularName': res.singular,
-                                  'namespaced': res.namespaced, 'verbs': list(res.verbs)})
+                                  'namespaced': res.namespaced, 'verbs': list(res.verbs),
+                                  'categories': list(res.categories), 'shortNames': list(res.shortnames)})
                     if res.status_sub:
                         items.append({'name': res.plural + '/status', 'kind': res.kind, 'singularName': '',
                                       'namespaced': res.namespaced, 'verbs': ['get', 'patch', 'update']})
